@@ -135,6 +135,19 @@ func vfC18(w *vfWorld) {
 				}
 			}
 		}
+		// a session cookie that is not (or no longer) a valid credential of this deployment - damaged, foreign-signed, made
+		// up - presented to the paths that clear it: the deletions follow the same attribute rules as everything else
+		for _, bad := range []string{"garbage", "bm90LWEtc2Vzc2lvbg==|1700000000|AAAAAAAAAAAAAAAAAAAAAAAAAAAAAAAAAAAAAAAAAAA=",
+			"djIuWDI5aGRYUm9NbDl3Y205NGVTMWhZbU5rWldZd01USXpORFUyTnpnNVlXSmpaR1ZtLmFiY2RlZmdoaWprbG1ub3A=|946684800|AAAAAAAAAAAAAAAAAAAAAAAAAAAAAAAAAAAAAAAAAAA="} {
+			hdr := cfg.CookieName + "=" + bad
+			for _, target := range []string{pp + "/sign_in", "/app/with-bad-cookie", pp + "/sign_out?rd=%2F", pp + "/auth"} {
+				req := &vfReq{Method: "GET", Host: host, Target: target, NoJar: true, CookieHdr: &hdr}
+				if fwd != "" {
+					req.Headers = append(req.Headers, [2]string{"X-Forwarded-Host", fwd})
+				}
+				b.Do(rep, req)
+			}
+		}
 		// error paths: bad callback, sign-in page, protected path without session
 		do(host, pp+"/callback?code=x&state=garbage", fwd)
 		do(host, pp+"/callback?error=access_denied", fwd)
